@@ -361,16 +361,29 @@ func checkCase(c Case) (Outcome, error) {
 		plan *migrate.Plan
 		err  error
 	}
-	ch := make(chan res, 1)
-	go func() {
-		p, err := planner.PlanChanges(context.Background(), "plan", changes, popts)
-		ch <- res{p, err}
-	}()
-	var r res
-	select {
-	case r = <-ch:
-	case <-time.After(300 * time.Second): // planning takes microseconds; minutes leave room for a starved machine
-		return out, fmt.Errorf("PlanChanges did not terminate within 300s (cycle handling loops?)")
+	// planning takes microseconds. The watchdog is there for a planner that loops: it allows minutes (a starved machine), its
+	// timer is released as soon as the plan is there (millions of cases would otherwise keep millions of timers alive), and a
+	// timeout counts only when a second attempt does not come back either.
+	attempt := func(limit time.Duration) (res, bool) {
+		ch := make(chan res, 1)
+		go func() {
+			p, err := planner.PlanChanges(context.Background(), "plan", changes, popts)
+			ch <- res{p, err}
+		}()
+		timer := time.NewTimer(limit)
+		defer timer.Stop()
+		select {
+		case r := <-ch:
+			return r, true
+		case <-timer.C:
+			return res{}, false
+		}
+	}
+	r, ok := attempt(300 * time.Second)
+	if !ok {
+		if r, ok = attempt(120 * time.Second); !ok {
+			return out, fmt.Errorf("PlanChanges did not terminate (twice: within 300s and within 120s): cycle handling loops?")
+		}
 	}
 	if r.err != nil {
 		return out, fmt.Errorf("PlanChanges failed: %v", r.err)
